@@ -2226,16 +2226,29 @@ def sympy_form_overflows(p, ipt):
     number at point `ipt` (where the reference value is finite: the caller asks only for compared points).  Without real
     assumptions sympy evaluates `Abs(exp(-tanh(250*x)))` to `exp(-sinh(500*re(x))/(2*cos(250*im(x))**2 +
     cosh(500*re(x)) - 1))`, which is inf/inf for x > 1.42."""
-    if p["rank"] != 0 or not isinstance(p.get("ast"), dict) or ipt is None or "idx" in X.kinds(p["ast"]):
+    if p["rank"] != 0 or not isinstance(p.get("ast"), dict) or ipt is None:
         return False
     try:
+        import copy
         import warnings
 
         import numpy as np
         import sympy
 
-        used = X.symbols(p["ast"])
-        env = {n: v for n, v in env_of(p, ipt).items() if n in used}
+        # indexed symbols `q[i]` become plain symbols `q__i` bound to the component (sympy alone is asked, so the way
+        # py-pde passes arrays is irrelevant here)
+        ast = copy.deepcopy(p["ast"])
+        full = env_of(p, ipt)
+        env = {}
+        for nd in X.walk(ast):
+            if nd["k"] == "idx":
+                name = f"{nd['n']}__{nd['i']}"
+                env[name] = full[nd["n"]][nd["i"]]
+                nd.clear()
+                nd.update({"k": "var", "n": name})
+        text = X.to_text(ast)
+        used = X.symbols(ast)
+        env.update({n: v for n, v in full.items() if n in used and n not in env})
         if any(isinstance(v, (list, tuple)) for v in env.values()):
             return False
         names = sorted(env)
@@ -2243,7 +2256,7 @@ def sympy_form_overflows(p, ipt):
         ufs = _ufunc_objects(p, "numpy")
         loc = dict(syms, heaviside=sympy.Heaviside, hypot=sympy.Function("hypot"))
         loc.update({n: sympy.Function(n) for n in ufs})
-        expr = sympy.simplify(sympy.parse_expr(p["texts"], local_dict=loc))
+        expr = sympy.simplify(sympy.parse_expr(text, local_dict=loc))
         special = {"re": np.real, "im": np.imag, "hypot": np.hypot, "erf": np.vectorize(math.erf),
                    "Heaviside": lambda x, h=0.5: np.heaviside(x, h)}
         with warnings.catch_warnings():
